@@ -177,6 +177,41 @@ def run_history(cfg, ops):
                     feed()
                 if ended:
                     break
+            elif kind == 'flatten':
+                # consolidate: cancel every resting sell of the symbol, then sell exactly what the account reports as free
+                s = syms[op[1] % len(syms)]
+                typ = op[2]
+                mine = [o for o in live if o.is_active and o.symbol == s and o.side == 'sell']
+                if len(mine) < 1:
+                    continue
+                applied.append(op)
+                for o in mine:
+                    o.cancel()
+                feed()
+                compare('flatten-cancel')
+                if vios:
+                    break
+                from decimal import Decimal
+                qty = float(Decimal(repr(float(b.exchange.assets[s.split('-')[0]]))))
+                if qty <= 0:
+                    continue
+                cur = b.positions[s].current_price
+                price = cur if typ == 'MARKET' else (round(cur + 5, 1) if typ == 'LIMIT' else max(0.1, round(cur - 5, 1)))
+                lhs, rhs = model.accepts(s, 'sell', typ, qty, price)
+                flags.add('submission-after-cancel-on-same-side')
+                flags.add('flatten')
+                what = f'flatten-sell-{typ}'
+                try:
+                    o2 = b.order(s, 'sell', typ, qty, price, reduce_only=True)
+                except InsufficientBalance:
+                    flags.add('rejection')
+                    if abs(lhs - rhs) <= TOL * max(1, abs(rhs)) or lhs < rhs:
+                        vios.append((f'C04:{what}:rejected-although-nothing-else-rests', f'after cancelling {len(mine)} resting sells, a sell of the whole reported base {qty!r} was rejected (reference: needs {float(lhs)!r}, has {float(rhs)!r})'))
+                    break
+                live.append(o2)
+                if typ == 'MARKET':
+                    feed()
+                    o2.execute()
             elif kind == 'modify':
                 # what strategies do to change an order: cancel it and submit a replacement of another size
                 act = [o for o in live if o.is_active and o.type != 'MARKET']
@@ -296,7 +331,8 @@ def run_shard(acc, shard, nshards, seed, tier):
                        st.sampled_from(['MARKET', 'LIMIT', 'LIMIT', 'STOP']), sizes, st.integers(-30, 30), st.booleans())
     modify = st.tuples(st.just('modify'), st.integers(0, 9), st.sampled_from(['same', 'bigger', 'max', 'max+released', 'half']))
     bracket = st.tuples(st.just('bracket'), st.integers(0, 1), st.sampled_from([0.25, 0.5, 0.6, 1.0]), st.sampled_from([0.5, 0.999, 1.0, 1.0]))
-    op = st.one_of(submit, submit, submit, modify, modify, bracket, st.tuples(st.just('execute'), st.integers(0, 9)), st.tuples(st.just('execute'), st.integers(0, 9)), st.tuples(st.just('cancel'), st.integers(0, 9)), st.tuples(st.just('cancel'), st.integers(0, 9)),
+    flatten = st.tuples(st.just('flatten'), st.integers(0, 1), st.sampled_from(['MARKET', 'LIMIT', 'STOP']))
+    op = st.one_of(submit, submit, submit, modify, modify, bracket, flatten, st.tuples(st.just('execute'), st.integers(0, 9)), st.tuples(st.just('execute'), st.integers(0, 9)), st.tuples(st.just('cancel'), st.integers(0, 9)), st.tuples(st.just('cancel'), st.integers(0, 9)),
                    st.tuples(st.just('execute'), st.integers(0, 9)), st.tuples(st.just('price'), st.integers(0, 1), st.integers(-20, 20)))
     cfgs = st.fixed_dictionaries(dict(fee=st.sampled_from([0.0, 0.001, 0.00075, 0.0075]), balance=st.sampled_from([10_000.0, 1_000.0, 99.99]),
                                        nsym=st.integers(1, 2)))
